@@ -13,7 +13,7 @@ var profiles = map[string]Profile{
 	"index": {Name: "index", Put: 28, Update: 26, Delete: 10, Get: 3, Query: 8, Scan: 6, Pages: 3, BatchWrite: 3, BatchGet: 0, Describe: 4, Failure: 0, Mgmt: 9,
 		CondPct: 15, BadPct: 8, Tables: 1, MaxIndexes: 3, OpsMin: 8, OpsMax: 30, ExactNums: true, FinalObserve: true, DelBoundary: 20},
 	"search": {Name: "search", Put: 40, Update: 8, Delete: 8, Get: 0, Query: 22, Scan: 8, Pages: 14, BatchWrite: 0, BatchGet: 0, Describe: 0, Failure: 0, Mgmt: 0,
-		CondPct: 5, BadPct: 3, Tables: 1, MaxIndexes: 2, OpsMin: 12, OpsMax: 36, ExactNums: true, NumericKeys: false, FinalObserve: false, DelBoundary: 50},
+		CondPct: 5, BadPct: 3, Tables: 1, MaxIndexes: 2, OpsMin: 12, OpsMax: 36, ExactNums: true, NumericKeys: true, FewHash: true, FinalObserve: false, DelBoundary: 50},
 	"cond": {Name: "cond", Put: 30, Update: 25, Delete: 22, Get: 6, Query: 2, Scan: 4, Pages: 0, BatchWrite: 0, BatchGet: 0, Describe: 1, Failure: 0, Mgmt: 0,
 		CondPct: 75, BadPct: 6, Tables: 1, MaxIndexes: 1, OpsMin: 8, OpsMax: 24, ExactNums: true, DotKeys: true, FinalObserve: true},
 	"fail": {Name: "fail", Put: 20, Update: 18, Delete: 10, Get: 6, Query: 8, Scan: 4, Pages: 2, BatchWrite: 6, BatchGet: 3, Describe: 3, Failure: 0, Mgmt: 4,
@@ -29,7 +29,7 @@ var profiles = map[string]Profile{
 	"values": {Name: "values", Put: 40, Update: 6, Delete: 4, Get: 30, Query: 6, Scan: 10, Pages: 0, BatchWrite: 4, BatchGet: 10, Describe: 0, Failure: 0, Mgmt: 0,
 		CondPct: 0, BadPct: 0, Tables: 1, MaxIndexes: 1, OpsMin: 8, OpsMax: 20, ExactNums: false, RichValues: true, FinalObserve: true},
 	"numbers": {Name: "numbers", Put: 30, Update: 22, Delete: 6, Get: 10, Query: 14, Scan: 8, Pages: 6, BatchWrite: 0, BatchGet: 0, Describe: 0, Failure: 0, Mgmt: 0,
-		CondPct: 35, BadPct: 0, Tables: 1, MaxIndexes: 1, OpsMin: 8, OpsMax: 24, ExactNums: false, NumericKeys: true, FinalObserve: true, DelBoundary: 10},
+		CondPct: 35, BadPct: 0, Tables: 1, MaxIndexes: 1, OpsMin: 8, OpsMax: 24, ExactNums: false, NumericKeys: true, FewHash: true, FinalObserve: true, DelBoundary: 10},
 }
 
 func runHistory(ops []*Op) (Outcome, Outcome) {
